@@ -157,6 +157,9 @@ func init() {
 	core.ChildModes["c09"] = func(c *core.Case) *core.Result {
 		s := c09Setup(c09ByName(c.Params["prog"]), c.Params["place"], c.Params["entry"])
 		s.startWindow = c.Params["sw"] != ""
+		if c.Params["sw"] == "3" {
+			s.holdStage = 3
+		}
 		var pts []c09Point
 		klist := strings.Split(c.Params["ks"], ",")
 		for kj, ks := range klist {
@@ -263,6 +266,9 @@ func checkC09(r *core.Run) {
 		swCombos++
 		cases = append(cases, core.Case{ID: "C09/startwin/" + cb.prog + "/" + cb.place + "/" + cb.entry, Mode: "c09", TimeoutMs: 1200000,
 			Params: map[string]string{"prog": cb.prog, "place": cb.place, "entry": cb.entry, "ks": strings.Join(ks, ","), "sw": "1"}})
+		// the same, held inside the function wrapper between the two reads which decide the run id
+		cases = append(cases, core.Case{ID: "C09/startwin-inner/" + cb.prog + "/" + cb.place + "/" + cb.entry, Mode: "c09", TimeoutMs: 1200000,
+			Params: map[string]string{"prog": cb.prog, "place": cb.place, "entry": cb.entry, "ks": strings.Join(ks, ","), "sw": "3"}})
 	}
 	pool := newPool(r)
 	if r.Thorough() {
@@ -538,6 +544,9 @@ func init() {
 		k, _ := strconv.ParseInt(os.Getenv("VERIF_C09_K"), 10, 64)
 		n, _ := strconv.Atoi(os.Getenv("VERIF_C09_N"))
 		s.startWindow = os.Getenv("VERIF_C09_SW") != ""
+		if os.Getenv("VERIF_C09_SW") == "3" {
+			s.holdStage = 3
+		}
 		bad := 0
 		for i := 0; i < n; i++ {
 			res, err := runCancelAt(s, k)
